@@ -159,7 +159,7 @@ Fixpoint has_type (e : tenv) (t : ty) (v : val) {struct v} : bool :=
       let e' := r_env r in
       match r_node r, v with
       | TB k, _ => basic_ok k v
-      | TP _, VNilP => true
+      | TP t', VNilP => match resolve e' t' with Some _ => true | None => false end
       | TP t', VPtr _ v' => has_type e' t' v'
       | TSl _, VNilS => true
       | TSl t', VSl _ es sp => (forallb (has_type e' t') es && forallb (has_type e' t') sp)%bool
